@@ -7641,6 +7641,7 @@ func (bexp *InListExp) reduceSelectors(row *Row, implicitTable string) ValueExp 
 
 	return &InListExp{
 		val:    bexp.val.reduceSelectors(row, implicitTable),
+		notIn:  bexp.notIn,
 		values: values,
 	}
 }
